@@ -52,6 +52,16 @@ type runner struct {
 
 // violation records a violation, capping the number of distinct signatures.
 func (rn *runner) violation(sig, what string, witness func() map[string]string) {
+	// The statement demands termination of reading, merging, listing and compiling. Actually running (or
+	// dry-running) a cyclic Taskfile does end with error 204, but only after each task of the ring has been
+	// called 1000 times (about 5 ms of CPU per call, linear in the ring size), which exceeds this check's CPU
+	// budget for large rings. That is slow, not a hang: such a case is inconclusive for C16 (the cycle clause
+	// itself is C07's subject), not a violation.
+	if strings.HasPrefix(sig, "C16 | cpu-limit | ") && (strings.HasSuffix(sig, ":dry-run") || strings.HasSuffix(sig, ":run") || strings.HasSuffix(sig, ":dry")) {
+		rn.part.Count("cpu_budget_exceeded_while_running_tasks_(inconclusive)", 1)
+		rn.part.Inconc(sig + ": " + what)
+		return
+	}
 	rn.mu.Lock()
 	if !rn.sigs[sig] && len(rn.sigs) >= maxSigs {
 		rn.mu.Unlock()
